@@ -84,6 +84,7 @@ type CSReq struct {
 	Rsa      string  `json:"rsa"`     // public key the secret is encrypted to: A | B | garbage
 	Toff     int64   `json:"toff"`    // timestamp = now + toff
 	TsRaw    *string `json:"tsraw"`   // timestamp text override
+	TsFmt    string  `json:"tsfmt"`   // "" | ms (milliseconds instead of seconds) | plus | zeros | space : spelling of now+toff
 	CType    string  `json:"ctype"`   // "" -> "1" if enc else "0"
 	KeyB64   *string `json:"keyb64"`  // override of the base64 key text inside the secret
 	Hdr      string  `json:"hdr"`     // normal | missing | nofp | nosecret | nosig
@@ -893,6 +894,16 @@ func buildCSReq(q CSReq, known []string, now int64) built {
 
 	// the secret
 	ts := strconv.FormatInt(now+q.Toff, 10)
+	switch q.TsFmt {
+	case "ms":
+		ts = strconv.FormatInt((now+q.Toff)*1000, 10)
+	case "plus":
+		ts = "+" + ts
+	case "zeros":
+		ts = "000" + ts
+	case "space":
+		ts = " " + ts
+	}
 	if q.TsRaw != nil {
 		ts = *q.TsRaw
 	}
